@@ -159,7 +159,7 @@ def run(ctx):
         fp = FlowProperties({k: v.copy() for k, v in tb.items()}, 8000.0)
     scheds = {0: np.linspace(6000.0, 1500.0, 9), 1: np.linspace(5000.0, 3000.0, 9), 2: np.linspace(7000.0, 500.0, 6)}
     total = 0
-    for cls, ops, maxlen in ((IdealReservoir, OPS_BASE, 3 if ctx.quick else 5),
+    for cls, ops, maxlen in ((IdealReservoir, OPS_BASE, 4 if ctx.quick else 5),
                              (SinglePhaseReservoir, OPS_BASE + OPS_SCHED, 3 if ctx.quick else 4)):
         env = Env(cls, fp, 8, 1000.0, 8000.0, scheds)
         hs = histories(ctx, ops, maxlen, 150 if ctx.quick else 3000, rng, 8 if ctx.quick else 12)
@@ -183,7 +183,7 @@ def run(ctx):
                     ctx.violations.append(dict(what=f"{cls.__name__}: repeating a call with the same arguments returns a different result",
                                                key="repeat" + cls.__name__, input=dict(cls=cls.__name__, history=h + [h[-1]]), observed="differs"))
         ctx.samples.append(dict(cls=cls.__name__, history=hs[len(hs) // 2], model_outputs=syms[len(hs) // 2]))
-    ctx.cov.update(evaluations=total, distinct_nontrivial=total, exhaustive_up_to_length=3 if ctx.quick else 4,
+    ctx.cov.update(evaluations=total, distinct_nontrivial=total, exhaustive_up_to_length=dict(IdealReservoir=4 if ctx.quick else 5, SinglePhaseReservoir=3 if ctx.quick else 4),
                    rule="all histories up to the stated length over {simulate(A), simulate(B same length), simulate(C other length), "
                         "rf, rfd, interpolator} (+ simulate with schedules for the single-phase class), plus random longer histories; "
                         "for each, the Coq state machine (symbolic instance, vm_compute) says which fresh-object computation each "
